@@ -23,7 +23,7 @@ one canonical form of constructs that maintainers routinely rewrite into each ot
   S7  T i = a; while (c(i)) { body; ++i; } (no continue, i dead afterwards) -> for (T i = a; c(i); ++i) body
   S4  a void function body / a loop body that ends with `if (a && b) { X }` -> `if (!a) return / continue; if (!b) ...; X` (guard-clause form)
   S8  if (a > b) a = b; -> a = min(a, b); if (a < b) a = b; -> a = max(a, b)   (integers)
-  S10 if (c) x = a; else x = b; -> x = c ? a : b ;  S13 if (c) b = true; -> b |= c ; if (c) b = false; -> b &= !c  (bool b)
+  E11 x * 2^K -> x << K, unsigned x / 2^K -> x >> K ;  E12 2 * i -> i * 2 ;  E13 X.empty() -> X.size() == 0 (std containers) ;  S16 T x; x = e; -> T x = e ;  S15 pointer cursor over [B, B+N) -> index loop over B ;  S10 if (c) x = a; else x = b; -> x = c ? a : b ;  S13 if (c) b = true; -> b |= c ; if (c) b = false; -> b &= !c  (bool b)
   S14 `T x = a; if (c) x = b;` -> `T x = c ? b : a;`   (a a plain read)
   S12 `if (ok) return; throw X;` at the end of a void function -> `if (!ok) throw X;`
   S5  `while (c) body` and `for (; c; ) body` are both exported as For nodes with empty init / increment
@@ -176,6 +176,12 @@ def norm_expr(e):
             e["b"] = b["e"]
         elif isinstance(b, dict) and b.get("k") == "OpCall" and b.get("op") in ("*", "->") and len(b.get("args", [])) == 1:
             e["b"] = b["args"][0]
+    if k == "Call" and e.get("cname") == "empty" and not e.get("args") and e.get("obj") is not None and (e.get("crec") or "").startswith("std::") \
+            and (e.get("crec") or "").split("<")[0] in ("std::vector", "std::basic_string", "std::deque", "std::list", "std::map", "std::set", "std::unordered_map", "std::unordered_set", "std::array"):
+        # E13: X.empty() -> X.size() == 0 for standard containers
+        sz = dict(e, cname="size", callee=(e.get("callee") or "").replace("::empty", "::size"), t="unsigned long", sz=8, synth=True)
+        sz.pop("cpat", None)
+        return norm_expr({"k": "Bin", "op": "==", "l": sz, "r": {"k": "Int", "v": 0, "lit": "0", "t": "unsigned long", "sz": 8, "loc": e.get("loc")}, "t": "bool", "sz": 1, "loc": e.get("loc"), "synth": True})
     if k == "Un" and e.get("op") == "!":
         inner = _strip(e.get("e"))
         if isinstance(inner, dict) and inner.get("k") == "Un" and inner.get("op") == "!":
@@ -200,6 +206,29 @@ def norm_expr(e):
             return e["l"]
         if lv == 1 and op == "*" and (e.get("t") == (e["r"].get("t") if isinstance(e["r"], dict) else None)):
             return e["r"]
+    if k == "Bin" and e.get("op") == "/" and not _is_float(e) and _unsigned(_strip(e.get("l"))) and not _is_float(_strip(e.get("l"))):
+        rv = _lit(e["r"])
+        if _lit(e["l"]) is None and isinstance(rv, int) and not isinstance(rv, bool) and rv >= 2 and (rv & (rv - 1)) == 0 and rv < (1 << 62):
+            # unsigned x / 2^K -> x >> K
+            e = dict(e)
+            e["op"] = ">>"
+            sh = rv.bit_length() - 1
+            e["r"] = dict(_strip(e["r"]), v=sh, lit=str(sh))
+    if k == "Bin" and e.get("op") in ("<<", ">>", "*", "+", "|", "&", "^") and not _is_float(e) and not _is_float(_strip(e.get("l"))) and not _is_float(_strip(e.get("r"))):
+        lv, rv = _lit(e["l"]), _lit(e["r"])
+        op = e["op"]
+        lt = (e["l"].get("t") or "") if isinstance(e["l"], dict) else ""
+        if op in ("*", "+", "|", "&", "^") and lv is not None and rv is None and "*" not in (e.get("t") or ""):
+            # E12: a literal operand of a commutative integer operator is written on the right: 2 * i -> i * 2
+            e = dict(e)
+            e["l"], e["r"] = e["r"], e["l"]
+            lv, rv = rv, lv
+        if op == "*" and lv is None and isinstance(rv, int) and not isinstance(rv, bool) and rv >= 2 and (rv & (rv - 1)) == 0 and rv < (1 << 62) and "*" not in (e.get("t") or ""):
+            # E11: x * 2^K -> x << K (K a literal; equal for every value that does not overflow, and modulo 2^n for unsigned x)
+            e = dict(e)
+            e["op"] = "<<"
+            sh = rv.bit_length() - 1
+            e["r"] = dict(_strip(e["r"]), v=sh, lit=str(sh))
     if k == "Bin" and e.get("op") in FLIP:
         e = _zero_cmp(e)
         if e.get("k") != "Bin" or e.get("op") not in FLIP:
@@ -560,6 +589,141 @@ def _index_loop_to_range(f):
             "var": {"d": d, "n": var.get("n"), "t": None, "loc": var.get("loc"), "ref": True, "const": False, "synth": True}}
 
 
+def _comma_parts(e):
+    e = _strip(e)
+    if isinstance(e, dict) and e.get("k") == "Bin" and e.get("op") == ",":
+        return _comma_parts(e.get("l")) + _comma_parts(e.get("r"))
+    return [e]
+
+
+def _is_ptr(t):
+    t = (t or "").replace("const", "").replace(" ", "")
+    return t.endswith("*")
+
+
+def _pointer_walk_to_index(stmts):
+    """S15: a pointer cursor over [B, B + N) becomes an index loop over B:
+         T* const end = B + N;  for (T* p = B; p != end; ++p, ++q) { .. *p .. *q .. }   ->   for (size_t i = 0; i < N; ++i) { .. B[i] .. q[i] .. }
+    p is used only dereferenced; q (further pointer cursors stepped in the increment) likewise and not used after the loop; B is
+    a plain variable / member / X.data() that the loop does not write"""
+    if LIGHT[0]:
+        return stmts
+    import copy
+    out = list(stmts)
+    j = 0
+    while j < len(out):
+        F = out[j]
+        j += 1
+        if not (isinstance(F, dict) and F.get("k") == "For" and isinstance(F.get("init"), dict) and F["init"].get("k") == "Decl"
+                and len(F["init"].get("vars", [])) == 1 and F.get("c") is not None and F.get("inc") is not None):
+            continue
+        var = F["init"]["vars"][0]
+        pd = var.get("d")
+        B = _strip(var.get("init"))
+        if pd is None or not _is_ptr(var.get("t")) or not isinstance(B, dict):
+            continue
+        base_ok = _pure_container(B) or (B.get("k") == "Call" and B.get("cname") == "data" and not B.get("args") and B.get("obj") is not None and _pure_container(B["obj"]))
+        if not base_ok:
+            continue
+        c = _strip(F["c"])
+        if not (isinstance(c, dict) and c.get("k") == "Bin" and c.get("op") in ("!=", "<", ">")):
+            continue
+        l, r = _strip(c["l"]), _strip(c["r"])
+        if isinstance(r, dict) and r.get("k") == "Ref" and r.get("d") == pd:
+            l, r = r, l
+            if c["op"] == "<":
+                continue
+        elif c["op"] == ">":
+            continue
+        if not (isinstance(l, dict) and l.get("k") == "Ref" and l.get("d") == pd):
+            continue
+        E, end_decl = r, None
+        if isinstance(E, dict) and E.get("k") == "Ref" and E.get("dk") == "local":
+            for q in range(j - 1):
+                s0 = out[q]
+                if isinstance(s0, dict) and s0.get("k") == "Decl" and len(s0.get("vars", [])) == 1 and s0["vars"][0].get("d") == E.get("d"):
+                    end_decl = q
+            if end_decl is None or any(_writes(x, E["d"]) for x in out[end_decl + 1:]):
+                continue
+            E = _strip(out[end_decl]["vars"][0].get("init"))
+        if not (isinstance(E, dict) and E.get("k") == "Bin" and E.get("op") == "+"):
+            continue
+        eb, N = _strip(E["l"]), E["r"]
+        if _txt(eb) != _txt(B):
+            eb, N = _strip(E["r"]), E["l"]
+        if _txt(eb) != _txt(B) or _refs_to(N, pd):
+            continue
+        # the increment: ++p and further pointer cursors
+        cursors = []
+        bad = False
+        for part in _comma_parts(F["inc"]):
+            part = _strip(_incdec(part))
+            t = _strip(part.get("e")) if isinstance(part, dict) and part.get("k") == "Un" and part.get("op") == "++" else None
+            if not (isinstance(t, dict) and t.get("k") == "Ref" and _is_ptr(t.get("t"))):
+                bad = True
+                break
+            cursors.append(t)
+        if bad or not cursors or sorted(x["d"] for x in cursors).count(pd) != 1 or len(set(x["d"] for x in cursors)) != len(cursors):
+            continue
+        body = F.get("b")
+        conts = []
+        ok = True
+        idx_d = 10000000 + pd
+        iref = {"k": "Ref", "d": idx_d, "dk": "local", "n": "i", "t": "unsigned long", "sz": 8, "synth": True}
+        plan = []
+        for cur in cursors:
+            d = cur["d"]
+            base = B if d == pd else cur
+            if _writes(body, d) or (d != pd and (any(_refs_to(x, d) for x in out[j:]) or _refs_to(F["c"], d))):
+                ok = False
+                break
+            # B itself must not be written in the loop
+            if d == pd and B.get("k") == "Ref" and _writes(body, B.get("d")):
+                ok = False
+                break
+            uses = _refs_to(body, d)
+            hits = []
+
+            def find(n, d=d):
+                if n.get("k") == "Un" and n.get("op") == "*" and isinstance(_strip(n.get("e")), dict) and _strip(n["e"]).get("k") == "Ref" and _strip(n["e"]).get("d") == d:
+                    hits.append(("deref", n))
+                elif n.get("k") == "Member" and isinstance(_strip(n.get("b")), dict) and _strip(n["b"]).get("k") == "Ref" and _strip(n["b"]).get("d") == d:
+                    hits.append(("member", n))
+                elif n.get("k") == "Index" and isinstance(_strip(n.get("b")), dict) and _strip(n["b"]).get("k") == "Ref" and _strip(n["b"]).get("d") == d and _lit(n.get("i")) == 0:
+                    hits.append(("deref", n))
+            _walk(body, find)
+            if len(hits) != len(uses):
+                ok = False
+                break
+            plan.append((base, hits))
+        if not ok:
+            continue
+        for base, hits in plan:
+            for kind, h in hits:
+                elem_t = h.get("t") if kind == "deref" else None
+                idx = {"k": "Index", "b": copy.deepcopy(base), "i": dict(iref), "t": elem_t, "loc": h.get("loc"), "sz": h.get("sz"), "synth": True}
+                if kind == "deref":
+                    h.clear()
+                    h.update(idx)
+                else:
+                    h["b"] = idx
+                    h["arrow"] = False
+        G = dict(F)
+        G["init"] = {"k": "Decl", "loc": F["init"].get("loc"), "synth": True,
+                     "vars": [{"d": idx_d, "n": "i", "t": "unsigned long", "sz": 8, "const": False, "ref": False, "loc": var.get("loc"),
+                               "init": {"k": "Int", "v": 0, "lit": "0", "t": "unsigned long", "sz": 8, "loc": var.get("loc")}}]}
+        G["c"] = {"k": "Bin", "op": "<", "l": dict(iref), "r": copy.deepcopy(N), "t": "bool", "sz": 1, "loc": c.get("loc"), "synth": True}
+        G["inc"] = {"k": "Un", "op": "++", "post": False, "e": dict(iref), "t": "unsigned long", "sz": 8, "loc": (F["inc"] or {}).get("loc"), "synth": True}
+        G["was"] = "PointerWalk"
+        out[j - 1] = G
+        if end_decl is not None:
+            ed = out[end_decl]["vars"][0]["d"]
+            if not any(_refs_to(x, ed) for k2, x in enumerate(out) if k2 != end_decl):
+                del out[end_decl]
+                j -= 1
+    return out
+
+
 def _while_to_for_pre(stmts):
     """S7 runs before the children are normalised: bring `while` into the For shape first, and the step statement into ++i"""
     tmp = []
@@ -579,7 +743,33 @@ def _while_to_for_pre(stmts):
                 c = dict(c)
                 c["b"] = {"k": "Block", "s": body[:-1] + [last], "loc": (b or {}).get("loc")}
         tmp.append(c)
-    return _decl_then_override([_step_to_inc(x) for x in _while_to_for(tmp)])
+    return _pointer_walk_to_index(_decl_then_override([_step_to_inc(x) for x in _while_to_for(tmp)]))
+
+
+def _decl_then_assign(stmts):
+    """S16: `T x; x = e;` -> `T x = e;`   (x without initialiser, e not reading x; runs after the children are normalised so that an
+    if / else chain of assignments (S10) is already one assignment)"""
+    if LIGHT[0]:
+        return stmts
+    out = []
+    i = 0
+    while i < len(stmts):
+        s = stmts[i]
+        nxt = stmts[i + 1] if i + 1 < len(stmts) else None
+        if isinstance(s, dict) and s.get("k") == "Decl" and len(s.get("vars", [])) == 1 and "d" in s["vars"][0] and s["vars"][0].get("init") is None \
+                and isinstance(nxt, dict) and nxt.get("k") == "Expr":
+            v = s["vars"][0]
+            a = _strip(nxt.get("e"))
+            if isinstance(a, dict) and a.get("k") == "Assign" and a.get("op") == "=" and isinstance(_strip(a.get("l")), dict) and _strip(a["l"]).get("k") == "Ref" \
+                    and _strip(a["l"]).get("d") == v["d"] and not _refs_to(a["r"], v["d"]) and not v.get("ref"):
+                v2 = dict(v)
+                v2["init"] = a["r"]
+                out.append(dict(s, vars=[v2]))
+                i += 2
+                continue
+        out.append(s)
+        i += 1
+    return out
 
 
 def _decl_then_override(stmts):
@@ -620,7 +810,7 @@ def norm_stmt(s):
         out = []
         for c in _while_to_for_pre(s.get("s", [])):
             out += norm_stmt(c)
-        s["s"] = out
+        s["s"] = _decl_then_assign(out)
         return [s]
     if k == "Expr":
         s["e"] = _incdec(norm_expr(s.get("e")))
@@ -697,7 +887,7 @@ def norm_stmt(s):
                 pairs = []
                 for x1, x2 in zip(tb, eb):
                     a1, a2 = _strip(x1.get("e")), _strip(x2.get("e"))
-                    if isinstance(a1, dict) and isinstance(a2, dict) and a1.get("k") == "Assign" and a2.get("k") == "Assign" and a1.get("op") == "=" and a2.get("op") == "=" \
+                    if isinstance(a1, dict) and isinstance(a2, dict) and a1.get("k") == "Assign" and a2.get("k") == "Assign" and a1.get("op") == a2.get("op") and a1.get("op") in ("=", "+=", "-=", "|=", "&=", "^=", "*=") \
                             and _pure_container(a1.get("l")) and _same(a1["l"], a2["l"]):
                         pairs.append((a1, a2))
                     else:
